@@ -725,7 +725,8 @@ class Block(composites.Composite):
             # won't call .blueprints on None since BOL assems don't have a core/r
             return
         if any(nuc in self.core.r.blueprints.activeNuclides for nuc in adjustList):
-            self.p.detailedNDens *= frac
+            # (not in place: a read-only block refuses the assignment before anything changes)
+            self.p.detailedNDens = self.p.detailedNDens * frac
             # Other power densities do not need to be updated as they are calculated in
             # the global flux interface, which occurs after axial expansion from crucible
             # on the interface stack.
